@@ -1,6 +1,6 @@
 (* C18/Properties.v — the property theorems for C18 and nothing else.
    Each is closed by [exact <lemma>] and followed by Print Assumptions. *)
-From IoraVerif Require Import Common.Bytes C18.Model C18.Proofs.
+From IoraVerif Require Import Common.Bytes C18.Model C18.Proofs C18.Handshake C18.HandshakeProofs.
 Local Open Scope N_scope.
 
 (* 1. Any well-formed frame the library serialises (every opcode < 16, payload length
@@ -86,6 +86,29 @@ Theorem ws_hostile_headers_fail_at_once :
 Proof. split; vm_compute; reflexivity. Qed.
 Print Assumptions ws_hostile_headers_fail_at_once.
 
+(* 8. The client from the TCP connect on (HTTP upgrade response first, frames afterwards; repair of C18-F1d): whatever
+      bytes the server sends and however they are cut, the client never holds more than MAX_UPGRADE (64 KiB) bytes of
+      an unfinished upgrade response, a refused upgrade holds nothing, and once upgraded the bounds of theorem 7 apply;
+      and no data frame follows a close frame. *)
+Theorem ws_client_bounded_from_connect : forall expected maxsz chunks,
+  match fst (crun expected maxsz (CHandshake []) chunks) with
+  | CHandshake buf => lenN buf <= MAX_UPGRADE
+  | COpen c => lenN (fst c) < 14 + N.max maxsz 125 /\ lenN (w_frag (snd c)) <= maxsz
+  | CRefused => True
+  end.
+Proof.
+  intros expected maxsz chunks.
+  pose proof (client_buffers_bounded_from_connect expected maxsz chunks (CHandshake [])) as H.
+  cbn [cinvb] in H. specialize (H ltac:(change (lenN (@nil N)) with 0; unfold MAX_UPGRADE; lia)).
+  destruct (fst (crun expected maxsz (CHandshake []) chunks)); exact H.
+Qed.
+Print Assumptions ws_client_bounded_from_connect.
+
+Theorem ws_client_no_data_after_close_from_connect : forall expected maxsz chunks,
+  ndac false (wevents (snd (crun expected maxsz (CHandshake []) chunks))) = true.
+Proof. intros. apply client_no_data_after_close_from_connect. Qed.
+Print Assumptions ws_client_no_data_after_close_from_connect.
+
 (* ------------------------------------------------ non-vacuity examples *)
 Example wf_frame_boundaries :
   wf_frame (mkFrame true 1 false key0 (repeat 65 125)) /\
@@ -112,3 +135,16 @@ Proof.
   destruct a as [|a0 [|a1 [|a2 [|a3 [|a4 a]]]]]; cbn in E; inversion E; subst; cbn in Hx;
     try discriminate; auto.
 Qed.
+
+(* an accepted upgrade (RFC 6455's sample accept value) with a subprotocol, cut inside the header block, followed by a
+   text frame in the same read as the blank line; and a header block that never ends, refused at 64 KiB *)
+Definition sample_accept : list N :=
+  [115;51;112;80;76;77;66;105;84;120;97;81;57;107;89;71;122;122;104;90;82;98;75;43;120;79;111;61].
+Definition resp_101 : list N :=
+  status_101 ++ [32; 88] ++ CRLF ++ accept_hdr ++ [32] ++ sample_accept ++ CRLF ++ proto_hdr ++ [32; 118; 49; 32] ++ CRLF ++ CRLF.
+Example handshake_instance :
+  snd (crun sample_accept 100 (CHandshake []) [firstn 30 resp_101; skipn 30 resp_101 ++ [129; 2; 104; 105]]) =
+  [CConnected [118; 49]; CEv (EvText [104; 105])] /\
+  crun sample_accept 100 (CHandshake []) [status_101 ++ repeat 97 40000; repeat 97 40000; [98]] =
+  (CRefused, [CUpgradeError]).
+Proof. split; vm_compute; reflexivity. Qed.
